@@ -299,9 +299,12 @@ class RegionGeom:
     def find_lat_long_along_traj(self, dist_along_traj):
         # Compute xyz-coordinates in ENU frame of los between detector and spot on the ground
 
-        xPath_v = dist_along_traj * np.sin(self.thetas()) * np.cos(self.phis())
+        # The azimuth phi of the trajectory about the line of sight is measured from the
+        # plane containing the local vertical (phi = 0 tilts away from it), the
+        # convention of the emergence-angle formula in throw().
+        xPath_v = dist_along_traj * np.sin(self.thetas()) * np.sin(self.phis())
 
-        yPath_v = dist_along_traj * np.sin(self.thetas()) * np.sin(
+        yPath_v = -dist_along_traj * np.sin(self.thetas()) * np.cos(
             self.phis()
         ) + self.earth_radius * np.cos(self.valid_elevAngVSubN())
 
